@@ -232,7 +232,8 @@ impl BobState {
                             });
                         }
                     }
-                    let last_progress = self.progress.take().unwrap();
+                    // Keep our copy: if processing fails the caller still asks for the outcome.
+                    let last_progress = self.progress.clone().unwrap_or_default();
                     let next = sync
                         .sync_process_message(
                             namespace,
@@ -246,7 +247,7 @@ impl BobState {
                 }
                 (Message::Sync(msg), Some(namespace)) => {
                     trace!("recv process message");
-                    let last_progress = self.progress.take().unwrap();
+                    let last_progress = self.progress.clone().unwrap_or_default();
                     sync.sync_process_message(*namespace, msg, *self.peer.as_bytes(), last_progress)
                         .await
                 }
